@@ -711,6 +711,7 @@ def replace(eq: str, term: str, replacement: str, rhs_only: tp.Optional[bool] = 
     ################################################################
 
     eq_new = ""
+    prev = ""
     idx = eq.find(term)
 
     # go through all appearances of term in eq
@@ -721,9 +722,9 @@ def replace(eq: str, term: str, replacement: str, rhs_only: tp.Optional[bool] = 
 
         # if it is an allowed sign, replace term, else not
         replaced = False
-        if ((idx_follow_op < len(eq) and eq[idx_follow_op] in allowed_follow_ops) and
-           (idx == 0 or eq[idx-1] in allowed_follow_ops)) or \
-                (idx_follow_op == len(eq) and eq[idx-1] in allowed_follow_ops):
+        before = eq[idx-1] if idx > 0 else prev
+        if (idx_follow_op == len(eq) or eq[idx_follow_op] in allowed_follow_ops) and \
+                (before == "" or before in allowed_follow_ops):
             eq_part = eq[:idx]
             if (rhs_only and "=" in eq_part) or (lhs_only and "=" not in eq_part) or (not rhs_only and not lhs_only):
                 eq_new += f"{eq_part}{replacement}"
@@ -732,6 +733,7 @@ def replace(eq: str, term: str, replacement: str, rhs_only: tp.Optional[bool] = 
             eq_new += f"{eq[:idx_follow_op]}"
 
         # jump to next appearance of term in eq
+        prev = eq[idx_follow_op-1:idx_follow_op]
         eq = eq[idx_follow_op:]
         idx = eq.find(term)
 
